@@ -366,9 +366,12 @@ def prepare_label(s: str, convert_unicode: bool, to_snake_case: bool) -> str:
         # Python normalizes identifiers (NFKC) but not the strings that name them (aliases, converter paths)
         s = unicodedata.normalize("NFKC", s)
     s = re.sub(r"\W", "", s)
+    if not convert_unicode:
+        # \w is wider than the characters Python accepts in identifiers (e.g. numeric characters of category No)
+        s = "".join(c for c in s if ("_" + c).isidentifier())
     # A label has to start with a letter: spell out a leading digit and move a leading underscore to the end
     # (pydantic and attrs treat a name with a leading underscore as private) until it does
-    while s.strip("_") and not s[0].isalpha():
+    while s.strip("_") and not (s[0] != "_" and s[0].isidentifier()):
         if s[0] == "_":
             s = s[1:] + "_"
         elif s[0].isdecimal():
